@@ -2,7 +2,9 @@ package main
 
 import (
 	"bytes"
+	"crypto/rand"
 	"golang.org/x/crypto/nacl/secretbox"
+	"io"
 
 	"github.com/ucan-wg/go-ucan/pkg/command"
 	"github.com/ucan-wg/go-ucan/pkg/meta"
@@ -229,4 +231,43 @@ func genMeta(c *Ctx) {
 			}
 		}
 	}
+	// an entropy source that hands out one byte per Read (io.Reader allows it): the nonce is still 24 random bytes
+	{
+		orig := rand.Reader
+		rand.Reader = oneByte{orig}
+		pt := []byte("the same value every time")
+		same, differs := true, true
+		seen := map[string]bool{}
+		var l int
+		for i := 0; i < 64; i++ {
+			m := meta.NewMeta()
+			if err := m.AddEncrypted("secret", pt, good); err != nil {
+				same = false
+				break
+			}
+			stored, _ := m.GetBytes("secret")
+			l = len(stored)
+			if back, err := m.GetEncryptedBytes("secret", good); err != nil || !bytes.Equal(back, pt) {
+				same = false
+			}
+			if len(stored) < 24 || seen[string(stored[:24])] || bytes.Equal(stored[1:24], make([]byte, 23)) {
+				differs = false
+			}
+			if len(stored) >= 24 {
+				seen[string(stored[:24])] = true
+			}
+		}
+		rand.Reader = orig
+		c.Emit("meta/slow-entropy", WList(WStr("enc"), WInt(int64(len(pt))), WStr("good")),
+			WList(WBool(true), WInt(int64(l)), WBool(same), WBool(true), WBool(true), WBool(differs), WBool(true), WBool(true)))
+	}
+}
+
+type oneByte struct{ r io.Reader }
+
+func (o oneByte) Read(p []byte) (int, error) {
+	if len(p) > 1 {
+		p = p[:1]
+	}
+	return o.r.Read(p)
 }
